@@ -188,6 +188,30 @@ def _decoy_cwd():
 
 
 def run(job, seed):
+    """An exception that comes out of the LIBRARY while a layout is being
+    loaded (a configured directory that does not exist must simply be
+    skipped, for one) is a finding of this property, not a harness crash."""
+    import traceback
+    try:
+        return _run(job, seed)
+    except core.HarnessError:
+        raise
+    except Exception as e:
+        frames = traceback.extract_tb(e.__traceback__)
+        if not frames or 'oslo_policy' not in frames[-1].filename:
+            raise
+        acc = core.Acc()
+        acc.case(job['space'], True)
+        acc.violation(
+            'load-raises|%s|%s' % (job['space'], type(e).__name__),
+            'loading / deciding on a layout of space %s raised %s: %s (in '
+            '%s)' % (job['space'], type(e).__name__, e, frames[-1].name),
+            {'job': {k: v for k, v in job.items() if k != 'weight'}},
+            'a decision', repr(e), job['space'])
+        return acc.result()
+
+
+def _run(job, seed):
     from oslo_policy import policy as P
     acc = core.Acc()
     _decoy_cwd()
